@@ -300,7 +300,7 @@ Proof. exact publish_classic_all. Qed.
 
 Example C18_publish_mixed_nonvacuous :
   let cfg := mkCfg 100 80 false 0 false false false 0 true 0 in
-  let mk id closed k := mkClient id SNormal closed 8 false None inp_empty ptr0 100 80 k in
+  let mk id closed k := mkClient id SNormal closed 8 false None inp_empty ptr0 100 80 k false in
   let kx cap mu := mkClip true cap mu None [] false in
   let s := mkSrv cfg [mk 1 false clip0; mk 2 false (kx (c18_Provide + c18_Notify + c18_Text) 10);
                       mk 3 false (kx (c18_Provide + c18_Notify + c18_Text) 1); mk 4 true clip0] None 0 in
@@ -428,7 +428,7 @@ Example C18_only_sender_nonvacuous :
      stream holds: 7 is closed, 3 is untouched *)
   let cfg := mkCfg 100 80 false 0 false false false 0 true 0 in
   let mk id bytes := mkClient id SNormal false 8 false None (mkInp bytes false []) ptr0 100 80
-                       (mkClip true c18_default_usercap c18_default_maxunsol None [] false) in
+                       (mkClip true c18_default_usercap c18_default_maxunsol None [] false) false in
   let p := be32 (c18_Provide + c18_Text) ++ be32 100 ++ [1; 2; 3] in
   let c7 := mk 7 (cut_hdr (neg32 11) ++ p) in
   let s := mkSrv cfg [mk 3 [9]; c7] None 0 in
